@@ -10,6 +10,10 @@
 (*   slice  r = array, off, len, cap  (a Go slice header)                  *)
 (*   tslice the same for a []int64 made with make                          *)
 (*   map    r = map id        struct  r = struct id                        *)
+(*   tmap   r = map id of a map[string]int64 made with make                *)
+(*   cstr   r = index into strs: a string held in a variable, as its       *)
+(*          sequence of one-character strings (strings are VALUES: every   *)
+(*          store builds a new entry, entries are never changed)           *)
 (* One operation = one script statement; Step(st, op) is the set of        *)
 (* possible [st, res] (capacity after a growing append is the only         *)
 (* nondeterminism: any capacity >= the needed length).                     *)
@@ -32,6 +36,11 @@ SliceV(r, off, len, cap) == V("slice", 0, "", r, off, len, cap)
 TSliceV(r, off, len, cap) == V("tslice", 0, "", r, off, len, cap)
 MapV(r) == V("map", 0, "", r, 0, 0, 0)
 StructV(r) == V("struct", 0, "", r, 0, 0, 0)
+TMapV(r) == V("tmap", 0, "", r, 0, 0, 0)
+CStrV(r) == V("cstr", 0, "", r, 0, 0, 0)
+OneChar == {"x", "s", "z", "k", "a", "b", "c"}            \* one-character payloads the string rules are judged on
+Digit == [n \in 0..9 |-> CASE n = 0 -> "0" [] n = 1 -> "1" [] n = 2 -> "2" [] n = 3 -> "3" [] n = 4 -> "4" [] n = 5 -> "5" [] n = 6 -> "6" [] n = 7 -> "7" [] n = 8 -> "8" [] OTHER -> "9"]
+NewStr(st, n, cs) == LET st1 == [st EXCEPT !.strs = Append(@, cs)] IN [st1 EXCEPT !.vars[n] = CStrV(Len(st1.strs))]
 ListLitV(l) == V("listlit", 0, "", l, 0, 0, 0)       \* unhashable key values: a list literal ("listlit"), a list / a map read from a container ("listelem", "mapelem")
 
 Res(k, v) == [k |-> k, v |-> v]         \* k: "ok" (statement), "val" (value read), "err"
@@ -78,12 +87,25 @@ Step(st, o) ==
          LET st1 == [st EXCEPT !.arrs = Append(@, [q \in 1..o.i.i |-> IntV(0)])] IN
          Same(SetVar(st1, o.x, TSliceV(Len(st1.arrs), 0, o.i.i, o.i.i)), OKR)
     [] o.op = "alias" -> Same(SetVar(st, o.x, st.vars[o.y]), OKR)          \* x = y : reference semantics
+    [] o.op = "read" /\ x.t = "cstr" ->      \* s[i] : the addressed character as a string
+         LET kd == IdxKind(o.i)  cs == st.strs[x.r] IN
+         IF kd = "open" THEN Same(st, OpenR)
+         ELSE IF kd = "bad" \/ o.i.i < 0 \/ o.i.i >= Len(cs) THEN Same(st, ErrR)
+         ELSE Same(st, Res("val", StrV(cs[o.i.i + 1])))
     [] o.op = "read" ->      \* x[i]
          IF ~IsSlice(x) THEN Same(st, OpenR)
          ELSE LET kd == IdxKind(o.i) IN
               IF kd = "open" THEN Same(st, OpenR)
               ELSE IF kd = "bad" \/ o.i.i < 0 \/ o.i.i >= x.len THEN Same(st, ErrR)
               ELSE Same(st, Res("val", Elem(st, x, o.i.i)))
+    [] o.op = "write" /\ x.t = "cstr" ->     \* s[i] = "c" : the variable gets a rebuilt string (i = len appends); nothing else changes
+         LET kd == IdxKind(o.i)  cs == st.strs[x.r] IN
+         IF kd = "open" THEN Same(st, OpenR)
+         ELSE IF kd = "bad" THEN Same(st, ErrR)
+         ELSE IF ~(o.v.t = "str" /\ o.v.s \in OneChar) THEN Same(st, OpenR)      \* non-string values (rune conversion) and longer payloads: not asserted
+         ELSE IF o.i.i < 0 \/ o.i.i > Len(cs) THEN Same(st, ErrR)
+         ELSE IF o.i.i = Len(cs) THEN {[st |-> NewStr(st, o.x, Append(cs, o.v.s)), res |-> OKR]}
+         ELSE {[st |-> NewStr(st, o.x, [q \in 1..Len(cs) |-> IF q = o.i.i + 1 THEN o.v.s ELSE cs[q]]), res |-> OKR]}
     [] o.op = "write" ->     \* x[i] = v   (i = len appends)
          IF ~IsSlice(x) THEN Same(st, OpenR)
          ELSE LET kd == IdxKind(o.i)
@@ -96,6 +118,11 @@ Step(st, o) ==
                    ELSE IF o.cap <= x.len THEN {}
                    ELSE LET st1 == [st EXCEPT !.arrs = Append(@, [q \in 1..o.cap |-> IF q <= x.len THEN Elem(st, x, q - 1) ELSE IF q = x.len + 1 THEN cv.v ELSE (IF x.t = "tslice" THEN IntV(0) ELSE NilV)])] IN
                         Same(SetVar(st1, o.x, V(x.t, 0, "", Len(st1.arrs), 0, x.len + 1, o.cap)), OKR)
+    [] o.op = "append" /\ x.t = "cstr" ->    \* s += v : concatenation (a number is written in decimal)
+         LET cs == st.strs[x.r] IN
+         IF o.v.t = "str" /\ o.v.s \in OneChar THEN {[st |-> NewStr(st, o.x, Append(cs, o.v.s)), res |-> OKR]}
+         ELSE IF o.v.t = "int" /\ o.v.i \in 0..9 THEN {[st |-> NewStr(st, o.x, Append(cs, Digit[o.v.i])), res |-> OKR]}
+         ELSE Same(st, OpenR)
     [] o.op = "append" ->    \* x += v
          IF ~IsSlice(x) THEN Same(st, OpenR)
          ELSE LET cv == IF x.t = "tslice" THEN ToInt64(o.v) ELSE [ok |-> TRUE, v |-> o.v] IN
@@ -106,28 +133,52 @@ Step(st, o) ==
                    Same(SetVar(st1, o.x, V(x.t, 0, "", Len(st1.arrs), 0, x.len + 1, o.cap)), OKR)
     [] o.op = "slice2" ->    \* x = y[i:j]
          LET y == st.vars[o.y] IN
-         IF ~IsSlice(y) THEN Same(st, OpenR)
+         IF y.t = "cstr" THEN      \* substring: 0 <= i <= j <= len
+              (LET cs == st.strs[y.r] IN
+               IF IdxKind(o.i) # "int" \/ IdxKind(o.j) # "int" THEN Same(st, IF IdxKind(o.i) = "bad" \/ IdxKind(o.j) = "bad" THEN ErrR ELSE OpenR)
+               ELSE IF o.i.i < 0 \/ o.i.i > o.j.i \/ o.j.i > Len(cs) THEN Same(st, ErrR)
+               ELSE {[st |-> NewStr(st, o.x, SubSeq(cs, o.i.i + 1, o.j.i)), res |-> OKR]})
+         ELSE IF ~IsSlice(y) THEN Same(st, OpenR)
          ELSE IF IdxKind(o.i) # "int" \/ IdxKind(o.j) # "int" THEN Same(st, IF IdxKind(o.i) = "bad" \/ IdxKind(o.j) = "bad" THEN ErrR ELSE OpenR)
          ELSE IF o.i.i < 0 \/ o.i.i > o.j.i \/ o.j.i > y.cap THEN Same(st, ErrR)
          ELSE IF o.j.i > y.len THEN Same(st, OpenR)                         \* re-slicing between len and cap: left open
          ELSE Same(SetVar(st, o.x, V(y.t, 0, "", y.r, y.off + o.i.i, o.j.i - o.i.i, y.cap - o.i.i)), OKR)
     [] o.op = "slice3" ->    \* x = y[i:j:k]
          LET y == st.vars[o.y] IN
-         IF ~IsSlice(y) THEN Same(st, OpenR)
+         IF y.t = "cstr" THEN Same(st, ErrR)                                  \* a string has no capacity
+         ELSE IF ~IsSlice(y) THEN Same(st, OpenR)
          ELSE IF IdxKind(o.i) # "int" \/ IdxKind(o.j) # "int" \/ IdxKind(o.k) # "int" THEN Same(st, OpenR)
          ELSE IF o.i.i < 0 \/ o.i.i > o.j.i \/ o.j.i > o.k.i \/ o.k.i > y.cap THEN Same(st, ErrR)
          ELSE IF o.j.i > y.len THEN Same(st, OpenR)
          ELSE Same(SetVar(st, o.x, V(y.t, 0, "", y.r, y.off + o.i.i, o.j.i - o.i.i, o.k.i - o.i.i)), OKR)
     [] o.op = "len" -> IF IsSlice(x) THEN Same(st, Res("val", IntV(x.len)))
-                       ELSE IF x.t = "map" THEN Same(st, Res("val", IntV(Len(st.maps[x.r]))))
-                       ELSE IF x.t = "str" THEN Same(st, OpenR) ELSE Same(st, OpenR)
+                       ELSE IF x.t \in {"map", "tmap"} THEN Same(st, Res("val", IntV(Len(st.maps[x.r]))))
+                       ELSE IF x.t = "cstr" THEN Same(st, Res("val", IntV(Len(st.strs[x.r])))) ELSE Same(st, OpenR)
     [] o.op = "in" ->        \* v in x
-         IF ~IsSlice(x) THEN Same(st, OpenR)
+         IF x.t \in {"cstr", "map", "tmap"} THEN Same(st, ErrR)              \* membership is defined on slices only: ill-typed operand
+         ELSE IF ~IsSlice(x) THEN Same(st, OpenR)
          ELSE Same(st, Res("val", BoolV(\E q \in 0..(x.len - 1) : EqKey(Elem(st, x, q), o.v) /\ Elem(st, x, q).t = o.v.t)))
     [] o.op = "callwrite" -> \* wr(x)  with  wr = func(s) { s[0] = 7 } : slices are passed by reference
-         IF ~IsSlice(x) THEN Same(st, OpenR)
+         IF x.t = "cstr" THEN Same(st, OKR)                                   \* a string is passed by value: the callee's store is its own
+         ELSE IF ~IsSlice(x) THEN Same(st, OpenR)
          ELSE IF x.len = 0 /\ x.cap = 0 THEN Same(st, OKR)       \* index len appends: to the callee's own header only
          ELSE Same([st EXCEPT !.arrs[x.r][x.off + 1] = IntV(7)], OKR)   \* (with spare capacity the append lands in the shared array, beyond the caller's len)
+    [] o.op = "strlit" -> {[st |-> NewStr(st, o.x, o.cs), res |-> OKR]}       \* x = "abc"  (cs = its characters)
+    [] o.op = "tmapnew" -> LET st1 == [st EXCEPT !.maps = Append(@, <<>>)] IN Same(SetVar(st1, o.x, TMapV(Len(st1.maps))), OKR)    \* x = make(map[string]int64)
+    [] o.op = "mapset" /\ x.t = "tmap" ->     \* typed map: key and value are converted as Go would, or the store fails unchanged
+         LET cv == ToInt64(o.v) IN
+         IF ~Hashable(o.i) THEN Same(st, ErrR)
+         ELSE IF o.i.t # "str" THEN Same(st, OpenR)                           \* non-string keys (rune conversion, nil): not asserted
+         ELSE IF ~cv.ok THEN Same(st, ErrR)
+         ELSE Same([st EXCEPT !.maps[x.r] = MapPut(@, o.i, cv.v, 1, <<>>)], OKR)
+    [] o.op = "mapget" /\ x.t = "tmap" ->
+         IF ~Hashable(o.i) THEN Same(st, Res("val", NilV))
+         ELSE IF o.i.t # "str" THEN Same(st, OpenR)
+         ELSE Same(st, Res("val", MapGet(st.maps[x.r], o.i, 1)))
+    [] o.op = "mapdel" /\ x.t = "tmap" ->
+         IF ~Hashable(o.i) THEN Same(st, ErrR)
+         ELSE IF o.i.t # "str" THEN Same(st, OpenR)
+         ELSE Same([st EXCEPT !.maps[x.r] = MapDel(@, o.i, 1, <<>>)], OKR)
     [] o.op = "mapnew" -> LET st1 == [st EXCEPT !.maps = Append(@, <<>>)] IN Same(SetVar(st1, o.x, MapV(Len(st1.maps))), OKR)
     [] o.op = "mapset" ->    \* x[i] = v
          IF x.t # "map" THEN Same(st, OpenR)
@@ -162,6 +213,7 @@ Share(st, n, m) ==      \* element offset of m's window relative to n's when bot
 ProjVar(st, n) ==
   LET v == st.vars[n] IN
   CASE IsSlice(v) -> [t |-> v.t, len |-> v.len, cap |-> v.cap, elems |-> Elems(st, v)]
-    [] v.t = "map" -> [t |-> "map", len |-> Len(st.maps[v.r]), cap |-> 0, elems |-> <<>>]
+    [] v.t \in {"map", "tmap"} -> [t |-> v.t, len |-> Len(st.maps[v.r]), cap |-> 0, elems |-> <<>>]
+    [] v.t = "cstr" -> [t |-> "str", len |-> Len(st.strs[v.r]), cap |-> 0, elems |-> [q \in 1..Len(st.strs[v.r]) |-> StrV(st.strs[v.r][q])]]
     [] OTHER -> [t |-> v.t, len |-> 0, cap |-> 0, elems |-> <<>>]
 =============================================================================
